@@ -166,6 +166,46 @@ func (p *planner) pairFamilies(fns []string, n int) {
 		}
 		p.pair(fns, gen.Pair{S: s, T: []byte(needle)})
 	}
+	// partial matches before the real one: the haystack is a chain of proper prefixes of the needle (re-cased),
+	// each broken off by a different atom, then (usually) the whole needle; needles of 2..5 atoms over a tiny
+	// alphabet of mixed widths, cased and caseless, so that candidate positions overlap and every "skip ahead
+	// after a failed candidate" step of the searches is exercised, on both sides of the 16-byte cut-over
+	p.fam = "partial-prefixes"
+	for i := 0; i < n/2; i++ {
+		alpha := [][]string{{"世", "1", "、"}, {"a", "b"}, {"k", "\u212a", "a"}, {"😀", "1", "!"}, {"é", "É", "e"}, {"¥", "1", "0"},
+			{"s", "ſ", "t"}, {"σ", "ς", "α"}, {"ß", "ẞ", "s"}, {"𐐀", "𐐨", "x"}, {"0", "1"}, {"あ", "い", "a"}}[g.R.Intn(12)]
+		m := 2 + g.R.Intn(4)
+		var atoms []string
+		for j := 0; j < m; j++ {
+			atoms = append(atoms, alpha[g.R.Intn(len(alpha))])
+		}
+		var s []byte
+		for j := g.R.Intn(4); j > 0; j-- {
+			k := 1 + g.R.Intn(m-1)
+			part := []byte(strings.Join(atoms[:k], ""))
+			if g.R.Intn(2) == 0 {
+				part = g.Recase(part)
+			}
+			s = append(s, part...)
+			if g.R.Intn(3) > 0 {
+				s = append(s, alpha[g.R.Intn(len(alpha))]...)
+			}
+		}
+		t := []byte(strings.Join(atoms, ""))
+		if g.R.Intn(4) > 0 {
+			s = append(s, g.Recase(t)...)
+		}
+		if g.R.Intn(3) == 0 {
+			s = append(s, alpha[g.R.Intn(len(alpha))]...)
+		}
+		if g.R.Intn(4) == 0 {
+			s = append(g.Pad([]int{1, 5, 9, 14, 17}[g.R.Intn(5)], g.R.Intn(2), nil), s...)
+		}
+		if g.Valid && (!utf8.Valid(s) || !utf8.Valid(t)) {
+			continue
+		}
+		p.pair(fns, gen.Pair{S: s, T: t})
+	}
 	// two long arguments that share a long common prefix (or suffix) up to case, with lengths around the
 	// power-of-two block sizes a chunked comparison would use, and then differ in code points that share
 	// their leading byte(s): what a block-wise skip of "equal" bytes must not get wrong
@@ -734,6 +774,35 @@ func plan(prop string, seed int64, scale int) []op {
 						gen.OpsByte(fnByte, p.sfx, s, byte(r), p.emit)
 					}
 				}
+			}
+			// partial matches before the real one, inside the class: needle of 2..5 atoms over three atoms of the
+			// class; the haystack chains proper prefixes of the needle broken off by another atom, then the needle
+			p.fam = []string{"caseless-partial", "ascii-partial"}[cls]
+			for i := 0; i < n; i++ {
+				a3 := []string{alpha[g.R.Intn(len(alpha))], alpha[g.R.Intn(len(alpha))], alpha[g.R.Intn(len(alpha))]}
+				m := 2 + g.R.Intn(4)
+				var atoms []string
+				for j := 0; j < m; j++ {
+					atoms = append(atoms, a3[g.R.Intn(3)])
+				}
+				var s []byte
+				for j := g.R.Intn(4); j > 0; j-- {
+					s = append(s, strings.Join(atoms[:1+g.R.Intn(m-1)], "")...)
+					if g.R.Intn(3) > 0 {
+						s = append(s, a3[g.R.Intn(3)]...)
+					}
+				}
+				t := []byte(strings.Join(atoms, ""))
+				if g.R.Intn(4) > 0 {
+					s = append(s, t...)
+				}
+				if g.R.Intn(3) == 0 {
+					s = append(s, a3[g.R.Intn(3)]...)
+				}
+				if cls == 1 {
+					s = flipCase(s, g.R.Intn)
+				}
+				p.pair(fnAll2, gen.Pair{S: s, T: t})
 			}
 		}
 		return p.ops
